@@ -182,6 +182,13 @@ class Section:
                 and switch.line.section.state != SectionState.CONNECTED
             ):
                 continue
+            # Skip if the switch is on the line of an open circuit breaker,
+            # it is closed by the circuit breaker when it closes
+            if (
+                switch.line.circuitbreaker is not None
+                and switch.line.circuitbreaker.is_open
+            ):
+                continue
             # If no intelligent switch on the disconnector
             if switch.intelligent_switch is None:
                 # Repair crew is assumed to be present repairing the line,
@@ -242,6 +249,13 @@ class Section:
             if (
                 switch.line.section is not None
                 and switch.line.section.state != SectionState.CONNECTED
+            ):
+                continue
+            # Skip if the switch is on the line of an open circuit breaker,
+            # it is closed by the circuit breaker when it closes
+            if (
+                switch.line.circuitbreaker is not None
+                and switch.line.circuitbreaker.is_open
             ):
                 continue
             switch.close()
